@@ -59,9 +59,11 @@ func (i ImportNames) LookupName(pkgPath string) (name string, ok bool) {
 // LookupPath looks up the map with the pkgName and returns its corresponding path
 // in the conversion setup file.
 func (i ImportNames) LookupPath(pkgName string) (path string, ok bool) {
+	// Two imports can share a name here (the name of an unnamed import is guessed from its path):
+	// take the smallest path so that the answer does not depend on the map iteration order.
 	for p, n := range i {
-		if n == pkgName {
-			return p, true
+		if n == pkgName && (!ok || p < path) {
+			path, ok = p, true
 		}
 	}
 	return
